@@ -3,3 +3,4 @@ import CmGen.Templates
 import CmGen.StateSig
 import CmGen.Leaves
 import CmGen.Optimiser
+import CmGen.StrHelpers
